@@ -67,6 +67,11 @@ type z =
 | Zpos of positive
 | Zneg of positive
 
+(** val eqb : bool -> bool -> bool **)
+
+let eqb b1 b2 =
+  if b1 then b2 else if b2 then false else true
+
 module Nat =
  struct
   (** val eqb : nat -> nat -> bool **)
@@ -646,6 +651,12 @@ let rec fold_right f a0 = function
 | [] -> a0
 | b :: t -> f b (fold_right f a0 t)
 
+(** val existsb : ('a1 -> bool) -> 'a1 list -> bool **)
+
+let rec existsb f = function
+| [] -> false
+| a :: l0 -> (||) (f a) (existsb f l0)
+
 (** val forallb : ('a1 -> bool) -> 'a1 list -> bool **)
 
 let rec forallb f = function
@@ -667,6 +678,31 @@ let rec combine l l' =
     (match l' with
      | [] -> []
      | y :: tl' -> (x, y) :: (combine tl tl'))
+
+(** val list_prod : 'a1 list -> 'a2 list -> ('a1 * 'a2) list **)
+
+let rec list_prod l l' =
+  match l with
+  | [] -> []
+  | x :: t -> app (map (fun y -> (x, y)) l') (list_prod t l')
+
+(** val firstn : nat -> 'a1 list -> 'a1 list **)
+
+let rec firstn n0 l =
+  match n0 with
+  | O -> []
+  | S n1 -> (match l with
+             | [] -> []
+             | a :: l0 -> a :: (firstn n1 l0))
+
+(** val skipn : nat -> 'a1 list -> 'a1 list **)
+
+let rec skipn n0 l =
+  match n0 with
+  | O -> l
+  | S n1 -> (match l with
+             | [] -> []
+             | _ :: l0 -> skipn n1 l0)
 
 (** val repeat : 'a1 -> nat -> 'a1 list **)
 
@@ -1508,3 +1544,306 @@ let ssd_spec mode f t p =
       | Some q ->
         Z.mul (Z.sub (aget f q) (aget t k)) (Z.sub (aget f q) (aget t k))
       | None -> Z0) (all_positions t.shape))
+
+(** val assoc : z -> (z * z) list -> z option **)
+
+let rec assoc k = function
+| [] -> None
+| p :: t -> let (a, b) = p in if Z.eqb a k then Some b else assoc k t
+
+(** val renum_go : (z * z) list -> z -> z list -> z list * z **)
+
+let rec renum_go seen next = function
+| [] -> ([], (Z.sub next (Zpos XH)))
+| v :: t ->
+  (match assoc v seen with
+   | Some n0 -> let r = renum_go seen next t in ((n0 :: (fst r)), (snd r))
+   | None ->
+     let r = renum_go ((v, next) :: seen) (Z.add next (Zpos XH)) t in
+     ((next :: (fst r)), (snd r)))
+
+(** val renumber : z -> z list -> z list * z **)
+
+let renumber bg l =
+  renum_go ((bg, Z0) :: []) (Zpos XH) l
+
+(** val get : z -> (z * z) list -> z **)
+
+let get k m =
+  match assoc k m with
+  | Some n0 -> n0
+  | None -> Zneg XH
+
+(** val fstep : (z -> z -> z) -> z -> z list -> (z * z) -> z list **)
+
+let fstep f maxlabel res al =
+  let l = snd al in
+  if (&&) (Z.leb Z0 l) (Z.ltb l maxlabel)
+  then updZ res l (f (fst al) (nthZ Z0 res l))
+  else res
+
+(** val foldl_labeled :
+    (z -> z -> z) -> z -> z -> z list -> z list -> z list **)
+
+let foldl_labeled f start maxlabel arr0 lab =
+  fold_left (fstep f maxlabel) (combine arr0 lab)
+    (repeat start (Z.to_nat maxlabel))
+
+(** val f_sum : ity option -> z -> z -> z **)
+
+let f_sum t a r =
+  match t with
+  | Some ty -> wrap ty (Z.add a r)
+  | None -> Z.add a r
+
+(** val f_max : z -> z -> z **)
+
+let f_max a r =
+  if Z.ltb a r then r else a
+
+(** val f_min : z -> z -> z **)
+
+let f_min a r =
+  if negb (Z.ltb r a) then a else r
+
+(** val labeled_sum : ity option -> z -> z list -> z list -> z list **)
+
+let labeled_sum t maxlabel arr0 lab =
+  foldl_labeled (f_sum t) Z0 maxlabel arr0 lab
+
+(** val labeled_max : z -> z -> z list -> z list -> z list **)
+
+let labeled_max start maxlabel arr0 lab =
+  foldl_labeled f_max start maxlabel arr0 lab
+
+(** val labeled_min : z -> z -> z list -> z list -> z list **)
+
+let labeled_min start maxlabel arr0 lab =
+  foldl_labeled f_min start maxlabel arr0 lab
+
+(** val region : z -> z list -> z list -> z list **)
+
+let region k arr0 lab =
+  map fst (filter (fun al -> Z.eqb (snd al) k) (combine arr0 lab))
+
+(** val relabel : z list -> z list * z **)
+
+let relabel l =
+  renumber Z0 l
+
+(** val same_go : (z * z) list -> (z * z) list -> z list -> z list -> bool **)
+
+let rec same_go index rindex a b =
+  match a with
+  | [] -> true
+  | x :: a' ->
+    (match b with
+     | [] -> true
+     | y :: b' ->
+       let index' =
+         match assoc x index with
+         | Some _ -> index
+         | None -> (x, y) :: index
+       in
+       let rindex' =
+         match assoc y rindex with
+         | Some _ -> rindex
+         | None -> (y, x) :: rindex
+       in
+       if (&&) (Z.eqb (get x index') y) (Z.eqb (get y rindex') x)
+       then same_go index' rindex' a' b'
+       else false)
+
+(** val is_same_labeling : z list -> z list -> bool **)
+
+let is_same_labeling a b =
+  same_go ((Z0, Z0) :: []) ((Z0, Z0) :: []) a b
+
+(** val same_labeling_spec : z list -> z list -> bool **)
+
+let same_labeling_spec a b =
+  forallb (fun pq ->
+    let (x, y) = fst pq in
+    let (x', y') = snd pq in
+    (&&) (eqb (Z.eqb x x') (Z.eqb y y')) (eqb (Z.eqb x Z0) (Z.eqb y Z0)))
+    (list_prod (combine a b) (combine a b))
+
+(** val remove_regions : z list -> z list -> z list **)
+
+let remove_regions lab regions =
+  map (fun v ->
+    if (&&) (negb (Z.eqb v Z0)) (existsb (Z.eqb v) regions) then Z0 else v)
+    lab
+
+(** val borders_at : z -> arr -> arr -> z list -> bool **)
+
+let borders_at mode f bc p =
+  existsb (fun e ->
+    match retrieve mode f p (fst e) with
+    | Some v -> negb (Z.eqb v (aget f p))
+    | None -> false) (entries true bc)
+
+(** val borders : z -> arr -> arr -> z list **)
+
+let borders mode f bc =
+  map (fun p -> if borders_at mode f bc p then Zpos XH else Z0)
+    (all_positions f.shape)
+
+(** val border_at : arr -> arr -> z -> z -> z list -> bool **)
+
+let border_at f bc i j p =
+  let cur = aget f p in
+  let other =
+    if Z.eqb cur i then Some j else if Z.eqb cur j then Some i else None
+  in
+  (match other with
+   | Some o ->
+     existsb (fun e ->
+       match retrieve extendConstant f p (fst e) with
+       | Some v -> Z.eqb v o
+       | None -> false) (entries true bc)
+   | None -> false)
+
+(** val border : arr -> arr -> z -> z -> z list **)
+
+let border f bc i j =
+  map (fun p -> if border_at f bc i j p then Zpos XH else Z0)
+    (all_positions f.shape)
+
+(** val borders_spec : z -> arr -> arr -> z list -> bool **)
+
+let borders_spec mode f bc p =
+  existsb (fun k ->
+    (&&) (negb (Z.eqb (aget bc k) Z0))
+      (match border_pos mode f.shape (padd p (psub k (centre bc.shape))) with
+       | Some q -> negb (Z.eqb (aget f q) (aget f p))
+       | None -> false)) (all_positions bc.shape)
+
+(** val upd_ext : z list -> z list -> z list **)
+
+let rec upd_ext ext pos =
+  match ext with
+  | [] -> ext
+  | lo :: l ->
+    (match l with
+     | [] -> ext
+     | hi :: r ->
+       (match pos with
+        | [] -> ext
+        | p :: q ->
+          (Z.min lo p) :: ((Z.max hi (Z.add p (Zpos XH))) :: (upd_ext r q))))
+
+(** val ext_init : z list -> z list **)
+
+let ext_init sh =
+  flat_map (fun d -> d :: (Z0 :: [])) sh
+
+(** val bbox_scan : arr -> z list **)
+
+let bbox_scan f =
+  fold_left (fun ext p -> if Z.eqb (aget f p) Z0 then ext else upd_ext ext p)
+    (all_positions f.shape) (ext_init f.shape)
+
+(** val bbox_generic : arr -> z list **)
+
+let bbox_generic f =
+  let e = bbox_scan f in
+  if Z.eqb (nthZ Z0 e (Zpos XH)) Z0 then map (fun _ -> Z0) e else e
+
+(** val bbox2_row : nat -> z list -> z -> z -> z -> z list -> z list **)
+
+let rec bbox2_row fuel row y x n1 e =
+  match fuel with
+  | O -> e
+  | S k ->
+    if Z.ltb x n1
+    then if Z.eqb (nthZ Z0 row x) Z0
+         then bbox2_row k row y (Z.add x (Zpos XH)) n1 e
+         else let e1 =
+                (Z.min (nthZ Z0 e Z0) y) :: ((Z.max (nthZ Z0 e (Zpos XH))
+                                               (Z.add y (Zpos XH))) :: (
+                (Z.min (nthZ Z0 e (Zpos (XO XH))) x) :: ((nthZ Z0 e (Zpos (XI
+                                                           XH))) :: [])))
+              in
+              if Z.ltb (Z.add x (Zpos XH)) (nthZ Z0 e (Zpos (XI XH)))
+              then bbox2_row k row y
+                     (Z.add
+                       (Z.add x
+                         (Z.sub (Z.sub (nthZ Z0 e (Zpos (XI XH))) x) (Zpos
+                           XH))) (Zpos XH)) n1 e1
+              else bbox2_row k row y (Z.add x (Zpos XH)) n1
+                     ((nthZ Z0 e1 Z0) :: ((nthZ Z0 e1 (Zpos XH)) :: (
+                     (nthZ Z0 e1 (Zpos (XO XH))) :: ((Z.add x (Zpos XH)) :: []))))
+    else e
+
+(** val rows_of : nat -> nat -> z list -> z list list **)
+
+let rec rows_of n0 w l =
+  match n0 with
+  | O -> []
+  | S k -> (firstn w l) :: (rows_of k w (skipn w l))
+
+(** val bbox_fast2 : arr -> z list **)
+
+let bbox_fast2 f =
+  let n0 = nthZ Z0 f.shape Z0 in
+  let n1 = nthZ Z0 f.shape (Zpos XH) in
+  let e =
+    snd
+      (fold_left (fun ye row -> ((Z.add (fst ye) (Zpos XH)),
+        (bbox2_row (S (Z.to_nat n1)) row (fst ye) Z0 n1 (snd ye))))
+        (rows_of (Z.to_nat n0) (Z.to_nat n1) f.data) (Z0,
+        (n0 :: (Z0 :: (n1 :: (Z0 :: []))))))
+  in
+  if Z.eqb (nthZ Z0 e (Zpos XH)) Z0
+  then Z0 :: (Z0 :: (Z0 :: (Z0 :: [])))
+  else e
+
+(** val nz_positions : arr -> z list list **)
+
+let nz_positions f =
+  filter (fun p -> negb (Z.eqb (aget f p) Z0)) (all_positions f.shape)
+
+(** val bbox_spec : arr -> z list **)
+
+let bbox_spec f =
+  match nz_positions f with
+  | [] -> flat_map (fun _ -> Z0 :: (Z0 :: [])) f.shape
+  | l :: l0 ->
+    let ps = l :: l0 in
+    flat_map (fun j ->
+      (minl (nthZ Z0 f.shape j) (map (fun p -> nthZ Z0 p j) ps)) :: (
+      (maxl Z0 (map (fun p -> Z.add (nthZ Z0 p j) (Zpos XH)) ps)) :: []))
+      (zseq Z0 (length f.shape))
+
+(** val bbox_labeled_spec : arr -> z -> z list list **)
+
+let bbox_labeled_spec f n0 =
+  map (fun l ->
+    bbox_spec { shape = f.shape; data =
+      (map (fun v -> if Z.eqb v l then Zpos XH else Z0) f.data) })
+    (zseq Z0 (Z.to_nat (Z.add n0 (Zpos XH))))
+
+(** val fullhistogram : z list -> z list **)
+
+let fullhistogram l =
+  foldl_labeled (fun _ r -> Z.add r (Zpos XH)) Z0
+    (Z.add (maxl Z0 l) (Zpos XH)) l l
+
+(** val count_eq : z -> z list -> z **)
+
+let count_eq v l =
+  zlen (filter (Z.eqb v) l)
+
+(** val com_sums : arr -> z list -> z -> z * z list **)
+
+let com_sums f lab l =
+  fold_left (fun acc ip ->
+    let (i, p) = ip in
+    if Z.eqb (nthZ Z0 lab i) l
+    then ((Z.add (fst acc) (aget f p)),
+           (map (fun sc -> Z.add (fst sc) (Z.mul (aget f p) (snd sc)))
+             (combine (snd acc) p)))
+    else acc)
+    (combine (zseq Z0 (Z.to_nat (size f.shape))) (all_positions f.shape))
+    (Z0, (map (fun _ -> Z0) f.shape))
